@@ -14,10 +14,12 @@ import contextlib
 import hashlib
 import io
 import json
+import os
 import random
 import re
 import sys
 import types
+import zlib
 
 SHIPPED_MODEL = "/repo/models/DtoKpipipi_v2.txt"
 SIM_PREFIX = "/simamp/"
@@ -253,7 +255,7 @@ class SimClock:
         self.datetime = _DateTime
 
 
-_seams = {"installed": False, "files": {}, "clock": None, "opens": 0, "fail_table_load": 0, "table_load_faults_fired": 0}
+_seams = {"installed": False, "files": {}, "clock": None, "opens": 0, "fail_table_load": 0, "table_load_faults_fired": 0, "versions": {}, "stats": 0}
 SPECIAL_TABLE = "MintDalitzSpecialParticles.csv"
 
 
@@ -312,6 +314,34 @@ def install_seams(files: dict):
                 return sim_open(str(self), mode)
             return real_path_open(self, mode, *a, **kw)
 
+        import stat as stat_mod
+
+        real_stat, real_lstat = os.stat, os.lstat
+
+        def sim_stat(real):
+            def f(path, *a, **kw):
+                try:
+                    s = os.fspath(path)
+                    s = s.decode("utf-8", "surrogateescape") if isinstance(s, bytes) else s
+                except TypeError:
+                    s = ""
+                if isinstance(s, str) and (s.startswith(SIM_PREFIX) or s == SIM_PREFIX.rstrip("/")):
+                    # a changed file has a later modification time; size in bytes of the UTF-8 text
+                    _seams["stats"] += 1
+                    if s.rstrip("/") == SIM_PREFIX.rstrip("/"):
+                        t, mode, size = 1_600_000_000, stat_mod.S_IFDIR | 0o755, 4096
+                    elif s in _seams["files"]:
+                        t = 1_600_000_000 + 7 * _seams["versions"].get(s, 0)
+                        mode, size = stat_mod.S_IFREG | 0o644, len(_seams["files"][s].encode("utf-8"))
+                    else:
+                        raise FileNotFoundError(2, "No such file or directory", s)
+                    ns = t * 10 ** 9
+                    return os.stat_result((mode, zlib.crc32(s.encode()) + 2, 99, 1, 0, 0, size, t, t, t, float(t), float(t), float(t), ns, ns, ns))
+                return real(path, *a, **kw)
+
+            return f
+
+        os.stat, os.lstat = sim_stat(real_stat), sim_stat(real_lstat)
         builtins.open = b_open
         pathlib.Path.read_text = read_text
         pathlib.Path.open = path_open
@@ -587,6 +617,8 @@ def run_ops(args: dict) -> dict:
         tgt = op["inner"] if op["op"] == "interrupt" else op
         if tgt.get("content") and "file" in tgt:
             # the file system changes between calls: this name now holds another pool file's text
+            if _seams["files"].get(SIM_PREFIX + tgt["file"]) != texts[tgt["content"]]:
+                _seams["versions"][SIM_PREFIX + tgt["file"]] = _seams["versions"].get(SIM_PREFIX + tgt["file"], 0) + 1
             files[SIM_PREFIX + tgt["file"]] = texts[tgt["content"]]
             _seams["files"][SIM_PREFIX + tgt["file"]] = texts[tgt["content"]]
         fired0 = _seams["table_load_faults_fired"]
